@@ -1,6 +1,7 @@
 package hooks
 
 import (
+	"fmt"
 	"time"
 
 	sdk "github.com/cosmos/cosmos-sdk/types"
@@ -68,9 +69,32 @@ func (w *world) atHeight(h int64) {
 }
 
 func (w *world) mustBlock(dt time.Duration) {
-	if br := w.block(dt); br.Panic {
+	br := w.block(dt)
+	w.hist = append(w.hist, histRec{What: "block", Returned: !br.Panic, PanicS: short(br.Err)})
+	if br.Panic {
 		w.note("history block panicked: %s", short(br.Err))
 	}
+}
+
+// histHook runs a hook that the application does not wire (V1 begin blockers) as a step of the state's history: on a
+// branch that is written back only when the hook returns (a panicking begin blocker means the block is never committed).
+func (w *world) histHook(name string) {
+	c, write := w.Ctx.CacheContext()
+	rec := histRec{What: name, Returned: true}
+	func() {
+		defer func() {
+			if r := recover(); r != nil {
+				rec.Returned, rec.PanicS = false, short(fmt.Sprint(r))
+			}
+		}()
+		hookByName(name).fn(w, c)
+	}()
+	if rec.Returned {
+		write()
+	} else {
+		w.note("history hook %s panicked: %s", name, rec.PanicS)
+	}
+	w.hist = append(w.hist, rec)
 }
 
 func (w *world) dropPrices(p params) {
@@ -174,7 +198,7 @@ func (w *world) v1auctions(p params) {
 	w.mustBlock(6 * time.Second)
 	w.dropPrices(p)
 	w.advance(6 * time.Second)
-	hookByName("liqv1").fn(w, w.Ctx)
+	w.histHook("liqv1")
 	w.note("v1 locked vaults=%d v1 dutch auctions=%d", len(w.App.LiquidationKeeper.GetLockedVaults(w.Ctx)), len(w.App.AuctionKeeper.GetDutchAuctions(w.Ctx, w.app["harbor"])))
 }
 
@@ -188,7 +212,7 @@ func (w *world) v1esm(p params) {
 	w.mustBlock(6 * time.Second)
 	w.dropPrices(p)
 	w.advance(6 * time.Second)
-	hookByName("liqv1").fn(w, w.Ctx)
+	w.histHook("liqv1")
 	w.esmExecute()
 	w.mustBlock(6 * time.Second) // esm begin blocker takes the price snapshot
 	w.advance(400 * time.Second)
@@ -289,7 +313,7 @@ func stateBuilders() []stateBuilder {
 			w.dropPrices(p)
 			w.setPrice(w.asset["uasset4"], p.Drop, true)
 			w.advance(6 * time.Second)
-			hookByName("liqv1").fn(w, w.Ctx)
+			w.histHook("liqv1")
 			w.note("v1 locked vaults=%d", len(w.App.LiquidationKeeper.GetLockedVaults(w.Ctx)))
 			w.advance(time.Duration([]int64{6, 150, 301, 400}[p.NVaults%4]) * time.Second)
 			return []string{"aucv1", "liqv1"}
@@ -424,7 +448,7 @@ func stateBuilders() []stateBuilder {
 		}},
 		{"v1_esm_after_restart", func(w *world, p params) []string {
 			w.v1esm(p)
-			hookByName("aucv1").fn(w, w.Ctx)
+			w.histHook("aucv1")
 			w.note("after V1 auction begin blocker: v1 dutch auctions=%d vaults=%d counter=%d", len(w.App.AuctionKeeper.GetDutchAuctions(w.Ctx, w.app["harbor"])),
 				len(w.App.VaultKeeper.GetVaults(w.Ctx)), w.App.VaultKeeper.GetLengthOfVault(w.Ctx))
 			w.advance(6 * time.Second)
